@@ -671,6 +671,109 @@ def inputs(ctx: Ctx) -> Iterator[Tuple[Hier, str]]:
             yield mutate(ctx, h)
 
 
+# --------------------------------------------------------------------------- constrained-primitive chains (oracle only)
+
+
+def render_cprim(h: Hier) -> str:
+    """`class X(str, DBC)` roots and `class Y(X1, X2, DBC)` below them, invariants on `self`."""
+    out: List[str] = []
+    for c in h:
+        for d in reversed(c["invs"]):
+            out.append(f'@invariant(lambda self: len(self) > 0, "{d}")')
+        bases = ", ".join((list(c["parents"]) or ["str"]) + ["DBC"])
+        out.append(f"class {c['name']}({bases}):")
+        out.append("    pass")
+        out.append("")
+        out.append("")
+    out.append('__version__ = "dummy"')
+    out.append('__xml_namespace__ = "https://dummy.com"')
+    return "\n".join(out) + "\n"
+
+
+def cprim_inputs(ctx: Ctx) -> Iterator[Hier]:
+    def mk(names: Sequence[str], edges: Sequence[Tuple[int, int]], rev: bool, order: Sequence[str]) -> Hier:
+        parents: Dict[str, List[str]] = {x: [] for x in names}
+        for a, b in edges:
+            parents[names[b]].append(names[a])
+        if rev:
+            for k in parents:
+                parents[k].reverse()
+        by = {x: mk_class(x, parents[x], props=0, invs=(i % 3)) for i, x in enumerate(names)}
+        return [by[x] for x in order]
+
+    for n in range(1, 5):
+        for edges in shapes(n):
+            for names in ([NAMES[:n], NAMES[:n][::-1]] if n > 1 else [NAMES[:1]]):
+                parents = {names[i]: [names[a] for a, b in edges if b == i] for i in range(n)}
+                for order in legal_orders(names, parents, 2):
+                    yield mk(names, edges, False, order)
+                    if any(len(v) > 1 for v in parents.values()):
+                        yield mk(names, edges, True, order)
+    for _ in range(ctx.n(40, 800)):
+        n = ctx.rng.randint(2, 12)
+        names = ctx.rng.sample(NAME_POOL, n)
+        edges = [(i, j) for j in range(1, n) for i in range(j) if ctx.rng.random() < 1.5 / (j + 1)]
+        parents = {names[i]: [names[a] for a, b in edges if b == i] for i in range(n)}
+        order = legal_orders(names, parents, 1)[0]
+        if ctx.rng.random() < 0.3:
+            order = list(order)
+            ctx.rng.shuffle(order)
+        yield mk(names, edges, ctx.rng.random() < 0.5, order)
+
+
+def run_cprim(ctx: Ctx) -> None:
+    """The statement of C05 on hierarchies of constrained primitives (ancestors, descendants, invariants)."""
+    from aas_core_codegen import parse, intermediate
+
+    for h in cprim_inputs(ctx):
+        ctx.count("cprim " + wire(h), nontrivial=any(c["parents"] for c in h), stream="cprim")
+        try:
+            atok, exc = parse.source_to_atok(source=render_cprim(h))
+            assert exc is None and atok is not None
+            pst, err = parse.atok_to_symbol_table(atok=atok)
+            if err is not None:
+                ctx.hit("cprim:err parse")
+                continue
+            st, err = intermediate.translate(parsed_symbol_table=pst, atok=atok)
+        except BaseException as e:  # noqa
+            ctx.hit("cprim:" + crash_name(e))
+            continue
+        if err is not None:
+            ctx.hit("cprim:rejected")
+            continue
+        ctx.hit("cprim:accepted")
+        names = [c["name"] for c in h]
+        anc = closure(h)
+        by = {c["name"]: c for c in h}
+        got = {str(t.name): t for t in st.constrained_primitives}
+        bad: List[Tuple[str, str]] = []
+        if sorted(got) != sorted(names):
+            bad.append(("C05:cprim-classes", f"constrained primitives {sorted(got)} differ from the declared {sorted(names)}"))
+        else:
+            topo = [str(t.name) for t in st.our_types_topologically_sorted]
+            pos = {x: i for i, x in enumerate(topo)}
+            for c in h:
+                n = c["name"]
+                t = got[n]
+                a = [str(x.name) for x in t.ancestors]
+                d = [str(x.name) for x in t.descendants]
+                inv = {m for m in names if n in anc[m]}
+                if set(a) != anc[n] or len(set(a)) != len(a):
+                    bad.append(("C05:cprim-ancestors", f"ancestors of the constrained primitive {n} are {a}, the closure is {sorted(anc[n])}"))
+                if set(d) != inv or len(set(d)) != len(d):
+                    bad.append(("C05:cprim-descendants", f"descendants of the constrained primitive {n} are {d}, the inverse relation gives {sorted(inv)}"))
+                if any(not pos[p] < pos[n] for p in c["parents"]):
+                    bad.append(("C05:cprim-topo", f"a parent of {n} does not precede it in {topo}"))
+                invs = [f"{i.specified_for.name}/{i.description}" for i in t.invariants]
+                own = [f"{n}/{x}" for x in c["invs"]]
+                k = len(invs) - len(own)
+                want = {f"{x}/{y}" for x in anc[n] for y in by[x]["invs"]}
+                if k < 0 or invs[k:] != own or set(invs[:k]) != want or len(set(invs[:k])) != k:
+                    bad.append(("C05:cprim-invariants", f"invariants of the constrained primitive {n} are {invs}; expected the inherited {sorted(want)} once each, then {own}"))
+        for sig, what in bad:
+            ctx.fail({"cprim": h}, what, sig)
+
+
 # --------------------------------------------------------------------------- runner hooks
 
 
@@ -726,6 +829,9 @@ def _explain(s: str) -> Any:
 
 
 def correspond(ctx: Ctx) -> None:
+    ctx.assumptions.append(
+        "constrained-primitive hierarchies are exercised by the direct oracle only (stream cprim); the Lean model covers plain classes"
+    )
     ctx.extra_cov["rule"] = (
         "hierarchies = corpus + a fixed boundary list + every DAG shape on <=4 (quick) / <=5 (thorough) classes up to "
         "isomorphism x name assignments x parent-list orders x Python-legal declaration orders x abstract masks + seeded "
@@ -738,10 +844,20 @@ def correspond(ctx: Ctx) -> None:
 def oracle(ctx: Ctx) -> None:
     if not ctx.driver_ok or ctx.searching:
         _run(ctx, False)
+    run_cprim(ctx)
 
 
 def replay(ctx: Ctx, data: Dict[str, Any]) -> Any:
     inp = data["failure"]["input"] if "failure" in data else data
+    if "cprim" in inp:
+        before = len(ctx.failures)
+        saved = globals()["cprim_inputs"]
+        try:
+            globals()["cprim_inputs"] = lambda _ctx: iter([inp["cprim"]])
+            run_cprim(ctx)
+        finally:
+            globals()["cprim_inputs"] = saved
+        return {"source": render_cprim(inp["cprim"]), "oracle": [[f["sig"], f["what"]] for f in ctx.failures[before:]]}
     if "hier" not in inp and data.get("disagreements"):
         inp = data["disagreements"][0]["input"]
     h = inp["hier"]
